@@ -384,6 +384,10 @@ def build(r):
             a, b = gen.choice(r, others), gen.choice(r, others)
         tags = [["ID", "Z", "cid%d" % len(lines)]] if gen.chance(r, 0.3) else []
         lines.append(["C", [a, gen.choice(r, "+-"), b, gen.choice(r, "+-"), str(r.randint(0, 3)), gen.choice(r, ["*", "2M"])], tags])
+        if not tags and gen.fair(r, 0.15):
+            # the same containment once more (identical C lines are two containments), with a count to divide
+            lines[-1][2] = [["KC", "i", str(r.randint(2, 40))]] if gen.chance(r, 0.5) else []
+            lines.append(["C", list(lines[-1][1]), [list(t) for t in lines[-1][2]]])
     # a bystander path over links that do not touch the target
     by = [l for l in links if target not in (l[1][0], l[1][2])]
     if by and gen.chance(r, 0.4):
